@@ -213,7 +213,7 @@ func runReload(seed uint64, n int, tier string, out string, replay string) {
 			distinct.Add(fmt.Sprint(ev, ae0, acc1, acc2))
 		}
 		sum.Sample(map[string]interface{}{"event_while_parked": ev, "upstream_accept_encoding": ae0, "client_1": acc1, "client_2": acc2,
-			"first": fmt.Sprintf("%d %s %s", rec1.Code, rec1.Header().Get("Content-Encoding"), rec1.Header().Get("X-Status")),
+			"first":  fmt.Sprintf("%d %s %s", rec1.Code, rec1.Header().Get("Content-Encoding"), rec1.Header().Get("X-Status")),
 			"second": fmt.Sprintf("%d %s %s", rec2.Code, rec2.Header().Get("Content-Encoding"), rec2.Header().Get("X-Status"))})
 	}
 	sum.DistinctNontrivial = distinct.Len()
